@@ -208,6 +208,14 @@ def rule_sib(ctx: Ctx) -> List[Ob]:
                 obs.append(ob("SIB", "inverse-Hessian operator is built from (dX, dG) of the histories", f, c, ok, why,
                               construct=short(c, 100)))
     need(nenc >= 3, f"SIB: only {nenc} LbfgsInvHessProduct constructions found")
+    # every result / callback state builds its operator here (never hands on a caller-owned one)
+    for c in mm.results:
+        h = kw(c, "hess_inv")
+        okh = isinstance(h, ast.Call) and dotted(h.func) == "LbfgsInvHessProduct"
+        obs.append(ob("SIB", "hess_inv of every result is an operator built at the construction", mm.f, h if h is not None else c, okh,
+                      f"hess_inv={short(h)}" + ("" if okh else ": not a LbfgsInvHessProduct built from the (bounded) histories -- an operator "
+                                               "taken over from elsewhere may carry more than maxcor pairs or pairs of another run"),
+                      construct=f"hess_inv= @{_cls(mm, c)}: {short(h, 50)}"))
     return obs
 
 
@@ -242,8 +250,8 @@ def _encoder_ok(c: ast.Call, mm) -> Tuple[bool, str]:
         return dotted(e), sl
     (pa, sa), (pb, sb) = ck(c.args[0]), ck(c.args[1])
     if pa and pb and pa.endswith(".hess_inv.sk") and pb.endswith(".hess_inv.yk") and pa.split(".")[0] == pb.split(".")[0]:
-        ok = sa == sb
-        return ok, f"checkpoint pairs {pa}[{sa}], {pb}[{sb}]" + ("" if ok else ": different row slices")
+        ok = sa == sb and sa is not None and sa.replace(" ", "") == "-maxcor:"
+        return ok, f"checkpoint pairs {pa}[{sa}], {pb}[{sb}]" + ("" if ok else ": the two row slices must both be [-maxcor:] (the most recent maxcor pairs)")
     return False, f"arguments ({short(c.args[0], 40)}, {short(c.args[1], 40)}) are not (dX, dG) of the histories"
 
 
